@@ -377,6 +377,12 @@ func (m *prattModel) extractRbp(p *Program, f *ssa.Function) rbp {
 		if ok && lf.Is("Parser", "previous") {
 			return true
 		}
+		// or from *p.current read before the parselet's first cursor move (the same token)
+		if ok && lf.Is("Parser", "current") {
+			if ld, isI := x.(ssa.Instruction); isI && beforeAnyCursorMove(f, ld) {
+				return true
+			}
+		}
 		// or the token handed back by a helper that advances once and returns *p.previous
 		if ex, ok := x.(*ssa.Extract); ok && ex.Index == 0 {
 			if hc, ok := ex.Tuple.(*ssa.Call); ok && isConsumedTokenHelper(hc.Call.StaticCallee()) {
